@@ -11,7 +11,9 @@ observations.
   had returned before `r` started (`w` returned before that write started).
 * `holdsList` — "entries appended to or removed from a stored list by concurrent callers all take
   effect": after all calls returned, an element whose append succeeded (and that nobody removes) is in the
-  list, an element whose removal succeeded (and that nobody appends) is not, nothing else appeared.
+  list, an element whose removal succeeded (and that nobody appends) is not, nothing else appeared, and
+  every initial member that no call removes is still there ("index lists never lose a member", also when
+  a call fails half-way: a failed reload must not be mistaken for an empty list).
 * `holdsRoute` — "a key is always read from the tier class it was written to": every tier call of every
   facade method addresses the cache tier of the key's category, or the persistent tier if (and only if)
   the category is persisted.
@@ -96,8 +98,10 @@ def holdsList (init : Option Val) (ths : List ThObs) (fget : Res) : Bool :=
       | .val (.list f) =>
         (elems ths).all (fun x => (!(okApp ths x && !anyRem ths x) || f.contains x) &&
                                   (!(okRem ths x && !anyApp ths x) || !f.contains x)) &&
-        f.all (fun y => l0.contains y || anyApp ths y)
-      | .nf => (elems ths).all (fun x => !(okApp ths x && !anyRem ths x))
+        f.all (fun y => l0.contains y || anyApp ths y) &&
+        l0.all (fun y => anyRem ths y || f.contains y)
+      | .nf => (elems ths).all (fun x => !(okApp ths x && !anyRem ths x)) &&
+               l0.all (fun y => anyRem ths y)
       | _ => false
   else true
 
